@@ -214,6 +214,28 @@ class _ChainFlatten(ast.NodeTransformer):
                 node.args[0] = ast.GeneratorExp(elt=inner.args[0].elt, generators=list(outer.generators) + list(inner.args[0].generators))
                 self.changed = True
                 return ast.fix_missing_locations(node)
+        # dict(filter(lambda kv: C(kv), X.items()))  ->  {k: v for k, v in X.items() if C((k, v))}
+        if isinstance(node.func, ast.Name) and node.func.id == "dict" and len(node.args) == 1 and not node.keywords and isinstance(node.args[0], ast.Call) and isinstance(node.args[0].func, ast.Name) and node.args[0].func.id == "filter" and len(node.args[0].args) == 2:
+            lam, src = node.args[0].args
+            if isinstance(lam, ast.Lambda) and len(lam.args.args) == 1 and isinstance(src, ast.Call) and isinstance(src.func, ast.Attribute) and src.func.attr == "items" and not src.args:
+                p_ = lam.args.args[0].arg
+                self.k += 1
+                kn, vn = f"__filter_key_{self.k}", f"__filter_value_{self.k}"
+                ok = True
+
+                class _P(ast.NodeTransformer):
+                    def visit_Subscript(self, n2):
+                        self.generic_visit(n2)
+                        if isinstance(n2.value, ast.Name) and n2.value.id == p_ and isinstance(n2.slice, ast.Constant) and n2.slice.value in (0, 1):
+                            return ast.copy_location(ast.Name(id=kn if n2.slice.value == 0 else vn, ctx=ast.Load()), n2)
+                        return n2
+                cond = _P().visit(copy.deepcopy(lam.body))
+                if any(isinstance(x, ast.Name) and x.id == p_ for x in ast.walk(cond)):
+                    ok = False
+                if ok:
+                    comp = ast.DictComp(key=ast.Name(id=kn, ctx=ast.Load()), value=ast.Name(id=vn, ctx=ast.Load()), generators=[ast.comprehension(target=ast.Tuple(elts=[ast.Name(id=kn, ctx=ast.Store()), ast.Name(id=vn, ctx=ast.Store())], ctx=ast.Store()), iter=src, ifs=[cond], is_async=0)])
+                    self.changed = True
+                    return ast.fix_missing_locations(ast.copy_location(comp, node))
         if isinstance(node.func, ast.Name) and node.func.id in self.CONSUMERS and node.args and not any(isinstance(a, ast.Starred) for a in node.args):
             src = self._chained(node.args[0])
             if src is not None:
@@ -227,6 +249,15 @@ class _ChainFlatten(ast.NodeTransformer):
 
     def visit_For(self, node):
         self.generic_visit(node)
+        # for x in itertools.chain(A, B): BODY   ->   for x in A: BODY; for x in B: BODY    (no break / else, simple A and B)
+        if (isinstance(node.iter, ast.Call) and _u(node.iter.func) in ("chain", "itertools.chain") and len(node.iter.args) >= 2 and not node.iter.keywords and not any(isinstance(a, ast.Starred) for a in node.iter.args)
+                and all(_is_simple_expr(a) for a in node.iter.args) and not node.orelse and not any(isinstance(x, ast.Break) for st in node.body for x in ast.walk(st))):
+            loops = []
+            for a in node.iter.args:
+                lp = ast.For(target=copy.deepcopy(node.target), iter=a, body=copy.deepcopy(node.body), orelse=[])
+                loops.append(ast.fix_missing_locations(ast.copy_location(lp, node)))
+            self.changed = True
+            return loops
         src = self._chained(node.iter)
         if src is not None and not node.orelse and not any(isinstance(x, ast.Break) for st in node.body for x in ast.walk(st)):
             self.k += 1
@@ -1512,8 +1543,9 @@ def _replace_tail_returns(block, make_stmt):
 class Inliner:
     """N6: inline private, non-anchor, straight-line helpers of the same module."""
 
-    def __init__(self, tree: ast.Module, baseline_helpers_ok: bool = True, foreign_refs: set | None = None):
+    def __init__(self, tree: ast.Module, baseline_helpers_ok: bool = True, foreign_refs: set | None = None, foreign_defs: set | None = None):
         self.foreign_refs = foreign_refs or set()
+        self.foreign_defs = foreign_defs or set()  # function names defined in other modules: a method of that name may be an override
         self.tree = tree
         self.changed = False
         self.counter = 0
@@ -1622,6 +1654,8 @@ class Inliner:
                     return None, 0
                 if self._overridden_below(h, f.attr):
                     return None, 0
+                if h[1] == "method" and f.attr in self.foreign_defs and f.value.id == selfn:
+                    return None, 0  # `self.helper()` may dispatch to an override defined in another module
                 return h, (1 if h[1] in ("method", "class") else 0)
         return None, 0
 
@@ -2279,11 +2313,60 @@ def unnest_self_calls(tree: ast.Module) -> bool:
     return changed
 
 
-def normalize_module(tree: ast.Module, max_rounds: int = 6, returns_arg: dict | None = None, foreign_refs: set | None = None) -> ast.Module:
+def fold_generator_helpers(tree: ast.Module) -> bool:
+    """N27: a private generator function that is nothing but nested `for` / `if` around one `yield E` becomes
+    `return (E for .. in .. if ..)`: the same lazy sequence, in a form the other passes can inline and flatten."""
+    changed = False
+    fns = []
+    for n in tree.body:
+        if isinstance(n, ast.FunctionDef):
+            fns.append(n)
+        elif isinstance(n, ast.ClassDef):
+            fns.extend(b for b in n.body if isinstance(b, ast.FunctionDef))
+    for fn in fns:
+        if not fn.name.startswith("_") or fn.name.startswith("__") or fn.name in ANCHORS or fn.decorator_list and any(_u(d) not in ("staticmethod", "classmethod") for d in fn.decorator_list):
+            continue
+        body = [s for s in fn.body if not (isinstance(s, ast.Expr) and isinstance(s.value, ast.Constant))]
+        if len(body) != 1 or not isinstance(body[0], ast.For):
+            continue
+        gens = []
+        cur = body
+        ok = True
+        elt = None
+        while True:
+            if len(cur) != 1:
+                ok = False
+                break
+            st = cur[0]
+            if isinstance(st, ast.For) and not st.orelse:
+                gens.append(ast.comprehension(target=st.target, iter=st.iter, ifs=[], is_async=0))
+                cur = st.body
+            elif isinstance(st, ast.If) and not st.orelse and gens:
+                gens[-1].ifs.append(st.test)
+                cur = st.body
+            elif isinstance(st, ast.Expr) and isinstance(st.value, ast.Yield) and st.value.value is not None and gens:
+                elt = st.value.value
+                break
+            else:
+                ok = False
+                break
+        if not ok or elt is None or any(isinstance(x, (ast.Yield, ast.YieldFrom)) for x in ast.walk(elt)):
+            continue
+        r = ast.Return(value=ast.GeneratorExp(elt=elt, generators=gens))
+        ast.copy_location(r, body[0])
+        ast.fix_missing_locations(r)
+        fn.body = [r]
+        changed = True
+    return changed
+
+
+def normalize_module(tree: ast.Module, max_rounds: int = 6, returns_arg: dict | None = None, foreign_refs: set | None = None, foreign_defs: set | None = None) -> ast.Module:
     for _ in range(max_rounds):
         bn = BlockNormalizer()
         bn.run(tree)
         if fold_pure_helpers(tree):
+            bn.changed = True
+        if fold_generator_helpers(tree):
             bn.changed = True
         if inline_nested_predicates(tree):
             bn.changed = True
@@ -2297,7 +2380,7 @@ def normalize_module(tree: ast.Module, max_rounds: int = 6, returns_arg: dict | 
             bn.changed = True
         if separate_returned_argument(tree, returns_arg or {}):
             bn.changed = True
-        inl = Inliner(tree, foreign_refs=foreign_refs or set())
+        inl = Inliner(tree, foreign_refs=foreign_refs or set(), foreign_defs=foreign_defs or set())
         inl.run()
         if not (bn.changed or inl.changed):
             break
